@@ -77,7 +77,7 @@ where
     let mut acc = Acc::default();
     let mut rng = crate::mon::case_rng(seed, 20_001, case);
     let bset = gen::boundary_set();
-    let opts = GenOpts { n_ops: rng.gen_range(5..if quick { 120 } else { 500 }), lookups: false, hashing: rng.gen_bool(0.5), extension: true, max_table_len: 0 };
+    let opts = GenOpts { n_ops: rng.gen_range(5..if quick { 120 } else { 500 }), lookups: false, hashing: rng.gen_bool(0.5), extension: true, max_table_len: 0, only_base2: false };
     let (prog_a, inputs) = circ::gen_program(&mut rng, &bset, &opts);
     let config = crate::props::c06::inner_config(&mut rng);
     // sibling circuit B: one more constant, same shape
@@ -163,7 +163,7 @@ fn case_dummy(seed: u64, case: u64, quick: bool) -> Acc {
     let mut acc = Acc::default();
     let mut rng = crate::mon::case_rng(seed, 20_002, case);
     let bset = gen::boundary_set();
-    let opts = GenOpts { n_ops: rng.gen_range(1..if quick { 200 } else { 1200 }), lookups: false, hashing: rng.gen_bool(0.5), extension: rng.gen_bool(0.7), max_table_len: 0 };
+    let opts = GenOpts { n_ops: rng.gen_range(1..if quick { 200 } else { 1200 }), lookups: false, hashing: rng.gen_bool(0.5), extension: rng.gen_bool(0.7), max_table_len: 0, only_base2: false };
     let (prog, _) = circ::gen_program(&mut rng, &bset, &opts);
     let mut config = crate::props::c06::inner_config(&mut rng);
     config.zero_knowledge = false; // dummy_circuit documents that it does not support zero knowledge
